@@ -498,6 +498,68 @@ def r7_market(ctx, F):
                 recv = noref(pop.trace(pop.val(c.args[0]), ('DerefMut::deref_mut', 'Deref::deref')))
                 if not (recv.fields() and recv.fields()[-1] == '.job_batches'):
                     ok = False
+    if not ok:
+        # single exit: `let claimed = 'claim: { .. break 'claim Some(jobs); .. break 'claim None; }; claimed
+        # .unwrap_or_default()` - every value the result can stand for is a popped batch or an empty deque
+        from taint import vals_of
+
+        def popped(c):
+            if c is None or not c.is_('Vec::pop'):
+                return False
+            recv = noref(pop.trace(pop.val(c.args[0]), ('DerefMut::deref_mut', 'Deref::deref')))
+            return bool(recv.fields()) and recv.fields()[-1] == '.job_batches'
+
+        def fine(v, depth=0):
+            v = noref(v)
+            if depth > 6:
+                return False
+            if v.kind == 'call':
+                c = pop.call_at(v.key)
+                if c is None:
+                    return False
+                if not v.fields() and c.is_('VecDeque::new', 'Default::default'):
+                    return True
+                if popped(c):
+                    return True          # the Option itself, or its `as Some` payload
+                if not v.fields() and c.is_('Option::unwrap_or_default', 'Option::unwrap_or', 'Option::unwrap_or_else'):
+                    alts = [fine(pop.val(c.args[0]), depth + 1)]
+                    if c.is_('Option::unwrap_or'):
+                        alts.append(fine(pop.val(c.args[1]), depth + 1))
+                    return all(alts)
+                return False
+            if v.kind == 'agg':
+                if v.key[2] == 'None':
+                    return True
+                if v.key[2] == 'Some' and v.key[3]:
+                    return fine(v.key[3][0], depth + 1)
+                return False
+            if v.kind == 'local' and not v.fields():
+                ds = [d for d in pop.defs.get(v.key, []) if d[1] == 'call' or not d[2]['lhs']['p']]
+                res = []
+                for d in ds:
+                    if d[1] == 'call':
+                        res.append(fine(V('call', d[0]), depth + 1))
+                    elif d[2]['rv']['k'] == 'agg' and d[2]['rv'].get('adt') == 'std::option::Option':
+                        ops_ = d[2]['rv']['ops']
+                        res.append(d[2]['rv'].get('variant') == 'None' or
+                                   (len(ops_) == 1 and fine(pop.val(ops_[0]), depth + 1)))
+                    elif d[2]['rv']['k'] == 'use':
+                        res.append(fine(pop.val(d[2]['rv']['op']), depth + 1))
+                    else:
+                        res.append(False)
+                return bool(res) and all(res)
+            if v.kind == 'local':
+                alts = set(noref(x) for x in vals_of(pop, v))
+                return bool(alts) and alts != {v} and all(fine(x, depth + 1) for x in alts)
+            return False
+        n = 0
+        ok = True
+        for (bb, si, st) in pop.defs.get(0, []):
+            n += 2
+            if si == 'call':
+                ok = ok and fine(V('call', bb))
+            else:
+                ok = ok and st['rv']['k'] == 'use' and fine(pop.val(st['rv']['op']))
     ctx.check(ok and n >= 2, rule, 'pop-returns-batch-or-empty', pop,
               good='pop() returns a batch removed from job_batches or an empty deque',
               bad='JobBroker::pop returns something other than a batch removed from job_batches or '
